@@ -638,3 +638,17 @@ package parse
 //@ recursion structural parse.BinaryReader.* -- a BinaryReader wrapping a reader back end that wraps another BinaryReader: depth of the object nesting built by the caller
 //@ recursion structural parse.binaryReader*.* -- same
 //@ recursion structural parse.Indenter.Write -- an Indenter writing into another Indenter: depth of the writer nesting built by the caller
+
+// ---- C20: package-level memory that heap objects may point to. The frame analysis treats what is loaded from
+// parameter-reachable memory as parameter-rooted; that is only right if no pointer to package-level memory that is ever
+// written gets stored into a heap object. Every such store must be listed here with the reason why the memory is never
+// written (any other one is reported as frame:global-escape).
+//@ sharedconst parse.nullBuffer -- the one-byte buffer of every empty Input holds only the terminator; the library edits buffers in place only inside token text, which never includes the terminator (frame clauses of C02); NewInputBytes writes the terminator into its argument or a fresh copy, never into nullBuffer
+//@ sharedconst buffer.nullBuffer -- same for buffer.Lexer
+//@ sharedconst io.EOF -- error values are immutable
+//@ sharedconst css.endBytes -- []byte literal with cap == len: append reallocates; the css parser never edits p.data in place (ToLower is applied to parse.Copy(p.data))
+//@ sharedconst css.emptyBytes -- same
+//@ sharedconst css.wsBytes -- same (stored as Token.Data in the Values() buffer)
+//@ sharedconst ? in js.*.JSON -- error values (ErrInvalidJSON and errors returned by callees) placed in the argument list of fmt.Errorf
+//@ sharedconst ? in buffer.StreamLexer.read -- the error value returned by the reader
+//@ sharedconst ? in parse.BinaryReader.ReadBytes -- the error value returned by the back end
